@@ -400,7 +400,7 @@ def split_runs(events):
 # twice, a record printed twice, a packet processed twice, a request generated twice ...). After a batch has been accepted, one accepted
 # run is corrupted in that way and validated alone: if TLC accepts it the trace specification does not constrain what it is there for.
 SELFTEST_DUP = {"PacketScanObsTrace": ("WriteBegin", "WriteEnd"), "AppScanObsTrace": ("Line",), "ReceiverTrace": ("Proc",), "LoggerTrace": ("Write",),
-                "LiveTrace": ("Emit",), "TargetsTrace": ("Item",), "RunnerTrace": ("Line",), "ArpCacheTrace": ("ArpFrame",)}
+                "LiveTrace": ("Emit",), "TargetsTrace": ("Item",), "RunnerTrace": ("Line",), "ArpCacheTrace": ("ArpFrame",), "SourceTrace": ("Proc",)}
 
 
 def binding_selftest(ctx, module, runs, cfg=None, env=None, timeout=900):
